@@ -123,6 +123,11 @@ func c14EnvCheck(src string, mi int) (kind, detail string, accepted bool, evals 
 		if e := errsText(o.Errs); e != be || (o.Err == nil) != (base.Err == nil) {
 			return "env-errors-differ", fmt.Sprintf("mode %s: %s reports %q, a %s reports %q", Modes[mi], c14EnvNames[env], e, c14EnvNames[0], be), false, evals
 		}
+		{
+			if sh := sharedMutable(base.Prog, o.Prog); sh != "" {
+				return "env-shared-mutable-memory", fmt.Sprintf("mode %s: the trees of two parsers built from independent builders share mutable memory: %s", Modes[mi], sh), false, evals
+			}
+		}
 		if d := dumpTree(o.Prog); d != bd {
 			return "env-tree-differs", fmt.Sprintf("mode %s: %s gives a different tree (with positions) than a %s", Modes[mi], c14EnvNames[env], c14EnvNames[0]), false, evals
 		}
